@@ -63,7 +63,15 @@ func verifSameHost(a, b net.IP) bool { return verifSameIP16(a, b) }
 
 func verifC11(requesterForms func() *net.UDPAddr, other bool) {
 	verifLimiterAlwaysGrants()
-	v := verifStartServer(verifSrvOpt{noSecurity: true, peerStore: &peer_store.InMemory{}})
+	o := verifSrvOpt{noSecurity: true, peerStore: &peer_store.InMemory{}}
+	hooked, hookCalls := false, 0
+	if other && verifNondetBool() {
+		// the embedding application also listens for announces (notification hook and peer store are
+		// independent consumers of an accepted announce)
+		hooked = true
+		o.onAnnounce = func(ih [20]byte, ip net.IP, port int, portOk bool) { hookCalls++ }
+	}
+	v := verifStartServer(o)
 	verifFixTokenClock(v.s)
 	announcer := verifUDPAddr()
 	ih := verifIDInBucket(v.id, 0) // arbitrary within one bucket (the bucket only matters for the nodes fallback)
@@ -81,6 +89,10 @@ func verifC11(requesterForms func() *net.UDPAddr, other bool) {
 	}
 	if implied {
 		wantPort, portKnown = announcer.Port, true
+	}
+	if hooked {
+		verifAssert(hookCalls == 1, "C11: the announce notification fires once for an accepted announce")
+		verifReach("hooked")
 	}
 	requester := requesterForms()
 	want := verifWant()
@@ -139,7 +151,13 @@ func VerifC11_OtherInfohash() {
 // A later announce from the same IP replaces the earlier endpoint; other IPs accumulate.
 func VerifC11_Replace() {
 	verifLimiterAlwaysGrants()
-	v := verifStartServer(verifSrvOpt{noSecurity: true, peerStore: &peer_store.InMemory{}})
+	o := verifSrvOpt{noSecurity: true, peerStore: &peer_store.InMemory{}}
+	hooked, hookCalls := verifNondetBool(), 0
+	if hooked {
+		// notification hook and peer store are independent consumers of an accepted announce
+		o.onAnnounce = func(ih [20]byte, ip net.IP, port int, portOk bool) { hookCalls++ }
+	}
+	v := verifStartServer(o)
 	verifFixTokenClock(v.s)
 	ip := verifIP4()
 	a1 := &net.UDPAddr{IP: ip, Port: 1001}
@@ -153,6 +171,10 @@ func VerifC11_Replace() {
 		return
 	}
 	verifAssert(len(reply.R.Values) == 1 && reply.R.Values[0].Port == p2, "C11: a later announce from the same IP replaces the endpoint")
+	if hooked {
+		verifAssert(hookCalls == 2, "C11: the announce notification fires once per accepted announce, next to the store")
+		verifReach("hooked")
+	}
 	verifReach("end")
 }
 
